@@ -449,7 +449,9 @@ def pre_ok(S, op):
         for n in c.forks.values():
             if in_ios(c, n) or len(n.outs) != 1:
                 continue
-            if len(n.ins) < 1 or n.ins[0] is None or any(l is not None for l in n.ins[1:]):
+            if len(n.ins) < 1 or n.ins[0] is None:
+                continue        # a fork without driver (stub of an unconnected instance input): left alone since the fix of D38
+            if any(l is not None for l in n.ins[1:]):
                 return False
         return True
     if k in ('copy', 'pickle'):
@@ -703,6 +705,48 @@ def removed_instance_scenarios():
                     ['io', 0, 2], ['resolve', [[ka, ta, True], [kb, tb, True]]], ['copy']])
         out.append([['node', 'u1', ka], ['node', 'u2', kb], ['node', 'i0', FORK], ['line', 2, None, 1, 0], ['line', 1, 0, 0, 0],
                     ['node', 'o', FORK], ['line', 0, 0, 3, None], ['io', 0, 2], ['resolve', [[ka, ta, True], [kb, tb, True]]], ['copy']])
+    return out
+
+
+# the history of the witness theorem C10_eliminate_driverless_fork_kept (Proofs/CircuitElimOrder.v stub_history; must stay in sync)
+STUB_HISTORY = [['node', 'i', 'input'], ['node', 'f', FORK], ['node', 's', FORK], ['node', 't', FORK], ['node', 'g', 'NAND3'],
+                ['node', 'w', FORK], ['node', 'o', 'output'], ['node', 'j', 'input'],
+                ['line', 0, None, 1, None], ['line', 1, None, 4, 0], ['line', 2, None, 4, 1], ['line', 7, None, 3, None],
+                ['line', 3, None, 4, 2], ['line', 4, None, 5, None], ['line', 5, None, 6, None], ['rmline', 3], ['io', 0, 0], ['io', 1, 6]]
+
+
+def open_input_scenarios():
+    """eliminate_1to1_forks after substitute / resolve_tlib_cells on an instance with an unconnected INPUT pin (D38).  substitute
+    gives an implementation input with several readers a stub fork instance~input; if the instance pin is unconnected the stub has
+    no driver, and once the clean-up below an unconnected OUTPUT has removed all but one of its readers it is a fork with one
+    reader and no driver (Verilog: FA_X1 u1 (.A(a), .B(b), .CI(), .S(s), .CO())).  Well-formed use -- the loop must leave it alone.
+    Each input pin in turn (and all of them) open x one / all outputs connected, implementations with / without their own 1:1
+    forks, through substitute and through resolve_tlib_cells, then eliminate (twice), copy, eliminate."""
+    out = []
+    texts = ['input(A,B) output(S,CO) S=XOR2(A,B) CO=AND2(A,B)',
+             'input(A,B,CI) output(S,CO) T=XOR2(A,B) S=XOR2(T,CI) P=AND2(A,B) Q=AND2(T,CI) CO=OR2(P,Q)',      # full adder, FA_X1 style
+             'input(A,B,C) output(Y,Z) Y=AND2(A,B) Z=OR2(A,C)',
+             'input(D,CLK) output(Q,QN) Q=DFF(D,CLK) QN=DFF(D,CLK)']
+    for text in texts:
+        for el in (True, False):
+            impl = make_impl(text, el)
+            n_in, n_out = impl_shape(impl)
+            for open_pins in [[k] for k in range(n_in)] + [list(range(n_in))]:
+                for outs_c in [[j] for j in range(n_out)] + [list(range(n_out))]:
+                    via = 'resolve' if (len(out) % 2) else 'subst'
+                    ops = [['node', 'u', 'CELLA']]
+                    nid = 1
+                    for i in range(n_in):
+                        if i not in open_pins:
+                            ops += [['node', 'i%d' % i, FORK], ['line', nid, None, 0, i], ['io', nid - 1, nid]]
+                            nid += 1
+                    for j in outs_c:
+                        ops += [['node', 'o%d' % j, FORK], ['line', 0, j, nid, None], ['node', 'r%d' % j, 'BUF1'], ['line', nid, None, nid + 1, None]]
+                        nid += 2
+                    ops += [['subst', 0, text, el]] if via == 'subst' else [['resolve', [['CELLA', text, el], ['CELLB', IMPLS[0], True]]]]
+                    ops += [['elim'], ['elim'], ['copy'], ['elim']]
+                    out.append(ops)
+    out.append(STUB_HISTORY + [['elim'], ['elim'], ['copy'], ['elim']])
     return out
 
 
